@@ -32,6 +32,8 @@ type Scalars struct {
 	Plain   string
 	Skipped string `yaml:"-"`
 	O       string `yaml:"o,omitempty"`
+	Optless string `yaml:",omitempty"` // options without a name: the key is the lower-cased field name
+	Empty   string `yaml:""`
 	hidden  string
 }
 
@@ -77,7 +79,7 @@ type family struct {
 	aliasFree bool
 }
 
-var scalarUniverse = map[string]any{"a": "str", "n": 7, "f": 2.5, "b": true, "plain": "p", "o": "oo", "Skipped": "cap", "skipped": "s", "-": "dash", "hidden": "h", "": "empty", "extra": "e"}
+var scalarUniverse = map[string]any{"optless": "ol", "empty": "em", "a": "str", "n": 7, "f": 2.5, "b": true, "plain": "p", "o": "oo", "Skipped": "cap", "skipped": "s", "-": "dash", "hidden": "h", "": "empty", "extra": "e"}
 
 var families = []family{
 	{"Scalars", reflect.TypeOf(Scalars{}), scalarUniverse, true},
